@@ -212,7 +212,7 @@ func cmdCheck(args []string) int {
 	}
 	c := &checker{repo: *repo, verif: *verif, prop: *prop, tier: *tier, knownHits: map[string]bool{}, replayed: map[string]bool{}, reachState: map[string]string{}, t0: time.Now()}
 	c.seed, _ = strconv.ParseInt(os.Getenv("VERIF_SEED"), 10, 64)
-	c.fastCap, c.slowCap, c.execCap = 8*time.Second, 90*time.Second, 5*time.Minute
+	c.fastCap, c.slowCap, c.execCap = 8*time.Second, 90*time.Second, 12*time.Minute
 	if *tier == "thorough" {
 		c.fastCap, c.slowCap, c.execCap = 20*time.Second, 600*time.Second, 30*time.Minute
 	}
